@@ -349,11 +349,23 @@ def outside_tolerance_bands(ra, rb, h2, at_c1=None):
       * `t > 1 + eps`: the slant line leaves the sphere at parameter tau = 2 ra (ra - rb) / (h2 + (ra - rb)^2); for 1 < tau <= 1 + eps the
         general formula is used beyond the far rim.
     No coordinate occurs: whatever the code does differently for the same radii and distances at another place is NOT excused here."""
-    num, den = 2 * ra * (ra - rb), h2 + (ra - rb) * (ra - rb)
-    match_band = ra - rb > ATOL + RTOL * rb
+    return z3.And(z3.Not(in_radius_band(ra, rb, at_c1)), outside_t_band(ra, rb, h2))
+
+
+def in_radius_band(ra, rb, at_c1=None):
+    """the far end is thinner than the sphere's end, but by so little that the code may treat the two radii as EQUAL: by at most eps
+    (`r2 - r1 >= -eps`), or -- for a sphere on the c2 end only -- within np.allclose's tolerance of the other radius"""
+    match = ra - rb <= ATOL + RTOL * rb
     if at_c1 is not None:
-        match_band = z3.Or(at_c1, match_band)
-    return z3.Or(rb >= ra, z3.And(ra - rb > EPS, match_band, z3.Not(z3.And(num > den, num <= (1 + EPS) * den))))
+        match = z3.And(z3.Not(at_c1), match)
+    return z3.And(rb < ra, z3.Or(ra - rb <= EPS, match))
+
+
+def outside_t_band(ra, rb, h2):
+    """the slant line does not leave the sphere at a parameter 1 < tau <= 1 + eps  (tau = 2 ra (ra - rb) / (h2 + (ra - rb)^2)); nothing to ask
+    when the radii differ by at most eps (the code never computes tau then)"""
+    num, den = 2 * ra * (ra - rb), h2 + (ra - rb) * (ra - rb)
+    return z3.Or(ra - rb <= EPS, z3.Not(z3.And(num > den, num <= (1 + EPS) * den)))
 
 
 def _concentric_setup(end, taper=None):
@@ -711,17 +723,29 @@ def register_concentric(Rg):
         cs, rs = [R(x) for x in s.fields["center"].items], R(s.fields["radius"])
         c1 = [R(x) for x in f.fields["c1"].items]
         r1, r2 = R(f.fields["r1"]), R(f.fields["r2"])
+        return outside_t_band(rs, r1 + r2 - rs, dist2(f.fields["c1"], f.fields["c2"]))
+
+    def _radius_band(o):
+        s, f = o["sphere"], o["frustum_cone"]
+        cs, rs = [R(x) for x in s.fields["center"].items], R(s.fields["radius"])
+        c1 = [R(x) for x in f.fields["c1"].items]
+        r1, r2 = R(f.fields["r1"]), R(f.fields["r2"])
         at1 = z3.And(rs == r1, *[a == b for a, b in zip(cs, c1)])
-        return outside_tolerance_bands(rs, r1 + r2 - rs, dist2(f.fields["c1"], f.fields["c2"]), at_c1=at1)
+        return in_radius_band(rs, r1 + r2 - rs, at1)
 
     def concentric_post(E, v, o):
         """stated on the OBJECTS (usable at call sites): the sphere's radius is one of the end radii, the other end's radius is
-        r1 + r2 - rs, the height is the distance of the end centres (the very root np.linalg.norm produced)"""
+        r1 + r2 - rs, the height is the distance of the end centres (the very root np.linalg.norm produced).
+        EXACT outside the radius bands.  Inside them (the far end thinner by at most eps, or -- sphere on the c2 end -- within
+        np.allclose's tolerance) the code may treat the radii as equal: the result is the exact volume for the radii as given OR the exact
+        volume with the far radius replaced by the sphere's -- two pose-independent values; which of them is returned is not promised
+        (in the unchanged code it depends on whether np.allclose also matches the two centres, i.e. on where the solid sits)."""
         s, f = o["sphere"], o["frustum_cone"]
         rs = R(s.fields["radius"])
         r1, r2 = R(f.fields["r1"]), R(f.fields["r2"])
         h = R(E.sqrt(Sym(dist2(f.fields["c1"], f.fields["c2"]), "real"), nonneg_known=True))
-        return R(v["result"]) == V_sf(rs, r1 + r2 - rs, h)
+        res = R(v["result"])
+        return z3.Or(res == V_sf(rs, r1 + r2 - rs, h), z3.And(_radius_band(o), res == V_sf(rs, rs, h)))
 
     # union of a sphere with a frustum that shares its centre and radius at one end: inclusion-exclusion over the three closed forms
     # (the intersection through its VERIFIED contract: its two preconditions are obligations here; get_volume / the volume cache of
@@ -742,7 +766,9 @@ def register_concentric(Rg):
         s, f = o["self"].fields["obj1"], o["self"].fields["obj2"]
         rs, r1, r2 = R(s.fields["radius"]), R(f.fields["r1"]), R(f.fields["r2"])
         h = R(E.sqrt(Sym(dist2(f.fields["c1"], f.fields["c2"]), "real"), nonneg_known=True))
-        return R(v["result"]) == V_sphere(rs) + V_fr(r1, r2, h) - V_sf(rs, r1 + r2 - rs, h)
+        res, rest = R(v["result"]), V_sphere(rs) + V_fr(r1, r2, h)
+        band = _radius_band(dict(sphere=s, frustum_cone=f))  # inside the radius bands: see concentric_post
+        return z3.Or(res == rest - V_sf(rs, r1 + r2 - rs, h), z3.And(band, res == rest - V_sf(rs, rs, h)))
 
     def sfu_members_kept(E, v, o):
         s, f, s0, f0 = v["self"].fields["obj1"], v["self"].fields["obj2"], o["self"].fields["obj1"], o["self"].fields["obj2"]
@@ -753,7 +779,7 @@ def register_concentric(Rg):
     Rg.add(f"{VO}:VolSphereFrustumConeUnion._get_volume", prop="C13",
            variants={"sphere-at-c1-end": sfu_setup("c1"), "sphere-at-c2-end": sfu_setup("c2")},
            requires=[("sphere-shares-centre-and-radius-with-one-end-of-the-frustum", on_members(concentric_pre)),
-                     ("radii-and-height-outside-the-librarys-own-tolerance-bands", on_members(bands_pre))],
+                     ("crossing-parameter-outside-the-librarys-own-t-band", on_members(bands_pre))],
            ensures=[("sphere-plus-frustum-minus-the-integral-of-the-smaller-profile", sfu_post),
                     ("geometry-of-the-two-members-untouched", sfu_members_kept)],
            notes="any radii (both taper directions in one), arbitrary pose; the members' volume caches may be filled")
@@ -762,7 +788,7 @@ def register_concentric(Rg):
            variants={"sphere-at-c1-end/widening": _concentric_setup("c1", False), "sphere-at-c2-end/widening": _concentric_setup("c2", False),
                      "sphere-at-c1-end/taper": _concentric_setup("c1", True), "sphere-at-c2-end/taper": _concentric_setup("c2", True)},
            requires=[("sphere-shares-centre-and-radius-with-one-end-of-the-frustum", concentric_pre),
-                     ("radii-and-height-outside-the-librarys-own-tolerance-bands", bands_pre)],
+                     ("crossing-parameter-outside-the-librarys-own-t-band", bands_pre)],
            returns="real",
            ensures=[("equals-integral-of-the-smaller-profile", concentric_post)],
            lemmas=[note_entry],
